@@ -63,7 +63,8 @@ func refRead(f formatDef, data []byte) ([]obsItem, string) {
 const samLine = "%s\t%d\tchr1\t%d\t60\t4M\t=\t%d\t0\tACGT\t%s"
 
 // corpus returns the well-formed inputs of a format: size = "small" (8-14 bytes, LF only),
-// "medium" (40-200 bytes), "large" (one file of about 9 KiB crossing the 4096-byte buffers twice).
+// "medium" (40-200 bytes), "large" (one file of about 9 KiB crossing the 4096-byte buffers twice),
+// "longline" (a line of 5000+ bytes), "vocab" (placeholder tokens at the start of every text field).
 func corpus(format, size string) [][]byte {
 	corpusMu.Lock()
 	defer corpusMu.Unlock()
@@ -173,6 +174,27 @@ func buildCorpus(format, size string) [][]byte {
 		out = []string{"a\t0\t1\tn\nchr2\t5\t6\t" + string(longSeq(5000)) + "\nb\t2\t3\tm\n"}
 	case "newick/longline":
 		out = []string{"(a,b);\n(" + string(longSeq(5000)) + ":1,'" + strings.Repeat("x y''", 1000) + "':2)r;\n(c,d);\n"}
+	case "fasta/vocab", "fastq/vocab", "sam/vocab", "samh/vocab", "bed/vocab", "newick/vocab":
+		// Placeholder tokens of the bioinformatics format family ("value unavailable", "same as above",
+		// "no strand", ...) at the START of every text field, once followed by more text and once alone:
+		// a reader that gives one of them a meaning must not do so on a line cut short by a failing stream,
+		// under a split read, or at a stop position.
+		for _, v := range []string{"*", ".", "=", "0", "-", "+", "@", ">", "#", ";", "~", "NA", "\\N", "?", "%s"} {
+			w := v + "5AB"
+			switch format {
+			case "fasta":
+				out = append(out, ">"+w+"\n"+w+"\n"+w+"\n>"+v+"\n"+v+"\n>last\nAC\n")
+			case "fastq":
+				out = append(out, "@"+w+"\n"+w+"\n+\n"+w+"\n@"+v+"\n"+v+"\n+\n"+v+"\n@last\nA\n+\nI\n")
+			case "sam", "samh":
+				out = append(out, "@HD\tVN:1.6\n"+w+"\t0\t"+w+"\t1\t9\t"+w+"\t"+w+"\t0\t0\t"+w+"\t"+w+"\tXZ:Z:"+w+"\n"+
+					"q"+v+"\t0\t"+v+"\t1\t9\t"+v+"\t"+v+"\t0\t0\t"+v+"\t"+v+"\tXZ:Z:"+v+"\nlast\t0\tr\t1\t9\t1M\t*\t0\t0\tA\tI\n")
+			case "bed":
+				out = append(out, "c"+w+"\t0\t1\t"+w+"\nc\t2\t3\t"+v+"\nlast\t4\t5\tn\n")
+			case "newick":
+				out = append(out, "('"+w+"':1,'"+v+"':2)'"+w+"';\n('"+v+"');\n(last);\n")
+			}
+		}
 	default:
 		panic("no corpus " + format + "/" + size)
 	}
